@@ -75,14 +75,14 @@ theorem C01_optimal_sound (E : Env K X Y Z) (hE : E.Lawful) (i : conelp.In K X Y
     calc _ = _ / i.tau := by ring
       _ ≤ _ := hdres
   · rw [e2, hE.nY_smul, habs']
-    have h1 : E.nY ((1:K) • E.A i.x + (0:K) • 0 + (-i.tau) • i.b) / i.tau / i.resy0 ≤ st.pres := le_max_left _ _
+    have h1 : E.nY ((1:K) • E.A i.x + (0:K) • 0 + (-i.tau) • i.b) / i.tau / i.resy0 ≤ st.pres := by first | exact le_max_left _ _ | exact le_max_right _ _
     have h2 := le_trans h1 hpres
     rw [div_le_iff₀ hy0] at h2
     calc _ = _ / i.tau := by ring
       _ ≤ _ := h2
   · rw [e3, hE.nZ_smul, habs']
-    have h1 : E.nZ ((0:K) • i.rz + (1:K) • ((1:K) • E.G i.x + (0:K) • 0 + (1:K) • i.s) + (-i.tau) • i.h) / i.tau / i.resz0 ≤ st.pres :=
-      le_max_right _ _
+    have h1 : E.nZ ((0:K) • i.rz + (1:K) • ((1:K) • E.G i.x + (0:K) • 0 + (1:K) • i.s) + (-i.tau) • i.h) / i.tau / i.resz0 ≤ st.pres := by
+      first | exact le_max_left _ _ | exact le_max_right _ _
     have h2 := le_trans h1 hpres
     rw [div_le_iff₀ hz0] at h2
     calc _ = _ / i.tau := by ring
